@@ -61,7 +61,7 @@ def default_config():
         "password": None,  # DIGEST-MD5 needs to know the password to verify
         "realm": "example.org",
         "nonce": "OA6MG9tEQGm2hh",
-        "faults": [],  # (verb, occurrence (0-based) or "*", kind) kind in NO|NO:<CODE>|BYE|BYE:REFERRAL|SILENCE|MALFORMED
+        "faults": [],  # (verb, occurrence (0-based) or "*", kind) kind in NO|NO:<CODE>|BYE|BYE:REFERRAL|SILENCE|MALFORMED|LOOKALIKE
         "host": "server.example.org",
     }
 
@@ -239,6 +239,11 @@ class RefServer:
             return
         if f == "MALFORMED":
             sock.feed(b"* what\r\n")
+            return
+        if f == "LOOKALIKE":
+            # a data line whose string spells a status name, then the real (negative) status reply
+            sock.feed(self.choose("lookalike", [b'"OK"\r\n', b'"ok" "done"\r\n', b'{2}\r\nOK\r\n', b'"OK" (WARNINGS) "fine"\r\n']))
+            self.status(sock, b"NO", None, b"refused after a data line", cmd)
             return
         if v in wire.SCRIPT_VERBS and not self.authenticated:
             self.violation("%s before authentication" % v.decode(), cmd.raw)
